@@ -125,7 +125,16 @@ pub fn exec(line: &str, _model: &mut Model) -> Option<Exec> {
                                  if let Some(a) = api { if a.payload().cloned() != c && fail.is_none() { fail = Some("bundle_payload differs from Bundle::payload".into()); } }
                                  hs.push(H::Buffer(b)); }
                         "V" => { let v = counted(|| bundle_is_valid(bp)); out.push(format!("{}", v)); if let Some(a) = api { if a.validate().is_ok() != v && fail.is_none() { fail = Some("bundle_is_valid differs from validate()".into()); } } }
-                        _ => { let m = counted(|| bundle_get_metadata(bp)); let r = &*(m as *mut RawMeta);
+                        _ => { let m = counted(|| bundle_get_metadata(bp));
+                               // a string with a NUL byte cannot be a C string: null is the only honest answer, and only then
+                               let nul = api.as_ref().map(|a| a.primary.source.to_string().contains('\0') || a.primary.destination.to_string().contains('\0'));
+                               if m.is_null() {
+                                   out.push("null".into());
+                                   if nul == Some(false) && fail.is_none() { fail = Some("bundle_get_metadata returned null for endpoint IDs without a NUL byte".into()); }
+                                   continue;
+                               }
+                               if nul == Some(true) && fail.is_none() { fail = Some("bundle_get_metadata returned C strings for an endpoint ID with a NUL byte (they cannot agree with the Rust API)".into()); }
+                               let r = &*(m as *mut RawMeta);
                                let s = CStr::from_ptr(r.src).to_bytes().to_vec(); let d = CStr::from_ptr(r.dst).to_bytes().to_vec();
                                out.push(format!("meta{}:{}:{}:{}:{}:{}", hs.len(), hex(&s), hex(&d), r.timestamp, r.seqno, r.lifetime));
                                if let Some(a) = api { if (a.primary.source.to_string().into_bytes(), a.primary.destination.to_string().into_bytes(), a.primary.creation_timestamp.dtntime(), a.primary.creation_timestamp.seqno(), a.primary.lifetime.as_millis() as u64) != (s, d, r.timestamp, r.seqno, r.lifetime) && fail.is_none() { fail = Some("metadata differs from the Rust API".into()); } }
@@ -176,6 +185,7 @@ pub fn generate(ctx: &mut Ctx, rep: &mut Report, emit: &mut dyn FnMut(&mut Ctx, 
         let mut live_bundles: Vec<usize> = vec![];
         let mut live_bufs: Vec<usize> = vec![];
         let mut live_meta: Vec<usize> = vec![];
+        let mut nul_handles: Vec<usize> = vec![];
         let mut next = 0usize;
         let n = 1 + rng.below(8);
         for _ in 0..n {
@@ -184,11 +194,15 @@ pub fn generate(ctx: &mut Ctx, rep: &mut Report, emit: &mut dyn FnMut(&mut Ctx, 
                        if rng.chance(1, 10) { calls.push((if rng.chance(1, 2) { "FBN" } else { "FUN" }).into()); } }
                 1..=4 => {
                     // decode: valid bundle, mutated bundle, random bytes, empty
+                    let mut nul_bundle = false;
                     let bytes = match rng.below(8) {
                         0 => { let k = rng.below(40) as usize; rng.bytes(k) }
                         1 => vec![],
                         2 | 3 => { let mut b = gen_bundle(&mut rng, &Opts { wf: true, max_blocks: 4 }); let v = b.to_cbor(); crate::p_rx::mutate(&mut rng, &v) }
                         _ => { let mut b = gen_valid_bundle(&mut rng);
+                               // an endpoint ID with a NUL byte is valid on the wire but cannot be a C string
+                               if rng.chance(1, 8) { nul_bundle = true; let e = bp7::EndpointID::with_dtn(if rng.chance(1, 2) { "a\0b/x" } else { "n/\0" }).unwrap();
+                                   if rng.chance(1, 2) { b.primary.source = e; } else { b.primary.destination = e; } }
                                // payloads at and beyond the 64 KiB head-width boundary now and then
                                if rng.chance(1, 12) { let n = *rng.pick(&[65_535usize, 65_536, 65_537, 70_000]); b.set_payload(rng.bytes(n)); }
                                // any block order is valid on the wire: the payload block need not be last
@@ -197,7 +211,7 @@ pub fn generate(ctx: &mut Ctx, rep: &mut Report, emit: &mut dyn FnMut(&mut Ctx, 
                     };
                     let ok = Bundle::try_from(bytes.as_slice()).ok().map(|b| b.validate().is_ok()).unwrap_or(false);
                     calls.push(format!("D:{}", hex(&bytes)));
-                    if ok { live_bundles.push(next); next += 1; }
+                    if ok { live_bundles.push(next); if nul_bundle { nul_handles.push(next); } next += 1; }
                 }
                 5 => {
                     clock += 10;
@@ -210,7 +224,7 @@ pub fn generate(ctx: &mut Ctx, rep: &mut Report, emit: &mut dyn FnMut(&mut Ctx, 
                 }
                 6..=8 if !live_bundles.is_empty() => {
                     let k = *rng.pick(&live_bundles);
-                    match rng.below(4) { 0 => { calls.push(format!("E:{}", k)); live_bufs.push(next); next += 1; } 1 => { calls.push(format!("M:{}", k)); live_meta.push(next); next += 1; }
+                    match rng.below(4) { 0 => { calls.push(format!("E:{}", k)); live_bufs.push(next); next += 1; } 1 => { calls.push(format!("M:{}", k)); if !nul_handles.contains(&k) { live_meta.push(next); next += 1; } }
                         2 => { calls.push(format!("P:{}", k)); live_bufs.push(next); next += 1;
                                // the same object asked again: payload, then encoding, then payload (a read must not consume anything)
                                if rng.chance(1, 3) { calls.push(format!("P:{}", k)); live_bufs.push(next); next += 1; calls.push(format!("E:{}", k)); live_bufs.push(next); next += 1; calls.push(format!("V:{}", k)); } }
